@@ -10,6 +10,24 @@ T  trace files written by real runs: (a) random synchronisation programs of the 
    from VERIF_SEED.  A generic converter driven by the %EventDef header (checks/paje_conv.py) turns every line into an
    event; Paje_trace.tla replays the events; every event that is not enabled is reported with the reason computed by
    TLC.  Violations are grouped by signature C47:<reason>:<event kind>:<detail>.
+
+Genuine defects found on the unchanged tree (KNOWN_FINDINGS.jsonl; the check stays strict for everything else):
+  K1 decreasing timestamps: CreateContainer lines are written through while earlier-dated events wait in the buffer
+     (proposed/fix-C47-create-container-order.diff; with it applied in a scratch tree the state / link / event cases vanish)
+  K2 decreasing timestamps: resource-utilization variables are emitted retroactively (date of the action's last update)
+  K3 PopState on an empty stack after an actor migrated with an open state (container destroyed and re-created)
+  K4 PopState on an empty stack after Actor::resume() of an actor that was not suspended
+Not C47 (no trace comes out), seen while building the scenarios: tracing crashes on platforms with routers, with
+tracing/vm, and with tracing/categorized alone; state events carry undeclared extra fields with display-sizes /
+trace-call-location (counted in the evidence as events_with_undeclared_extra_fields).
+
+Mutations tried in a scratch worktree (tools/mutbuild.sh, VERIF_REPO / VERIF_BUILD), T part of the quick tier:
+  * instr_platform.cpp: the sleep of odd actors is not pushed (their wake-up still pops): CAUGHT
+    (C47:pop-without-push:PopState:ACTOR_STATE, 43 events, not masked by K3 / K4)
+  * instr_paje_containers.cpp: no dump_buffer before a container destruction is written: CAUGHT (use-after-destroy of
+    Push/PopState on ACTOR_STATE and MPI_STATE, time-decreases after DestroyContainer; 15 signatures)
+  * instr_paje_trace.cpp insert_into_buffer compares with >= instead of <=: CAUGHT (time-decreases between buffered
+    events, e.g. StartLink after PushState; 31 signatures, none masked by K1 / K2)
 """
 import json, os, re
 import vlib, drivers
@@ -18,6 +36,19 @@ import paje_conv
 import kernel_common as K
 
 LEVEL = "model_checking"
+META = {"text": "The Paje format is specified as a TLA+ state machine (declared types and entity values, live and destroyed "
+                "containers, per-(container, state type) stacks, last timestamp; one enabling condition per event kind); TLC "
+                "explores it exhaustively at small scope (invariants preserved, forbidden events disabled) and replays every "
+                "event line of the trace files written by real runs - kernel synchronisation programs, tracing-oriented S4U "
+                "scenarios on six platforms, an MPI code under smpirun - under tracing options drawn from the seed, reporting "
+                "each event that is not enabled with the violated condition: declare-before-use, non-decreasing time, no use "
+                "after destroy, pop only after push.",
+        "note": "Trusted: TLC; the generic %EventDef-driven converter (timestamps -> ranks, field names normalised); link values "
+                "and StartLink/EndLink key matching are not checked; states left open at destruction are not counted as "
+                "unbalanced; TI traces excluded; four genuine defects are recorded as known findings (by signature) and do not "
+                "fail the check; configurations that crash before writing a trace are avoided and listed in the module.",
+        "technique": "TLC model checking of Paje.tla at small scope + TLC trace validation of real Paje trace files "
+                     "(Paje_trace.tla), reasons computed by the specification"}
 DRIVERS = {"paje_drv": (["paje_drv.cpp"], "s4u", []), "paje_mpi": (["paje_mpi.c"], "c-smpi", [])}
 drivers.register(DRIVERS)
 
@@ -179,10 +210,21 @@ def platform_hosts(platform):
     return hosts
 
 
+# fixed scenarios that exposed defects of the tracing code at the pinned commit (see KNOWN_FINDINGS.jsonl); the label is
+# part of the signature of what they show, so that the same symptom elsewhere is still reported
+REGRESSION = [
+    {"kind": "paje_drv", "label": "migrate-while-asleep", "platform": "small_platform.xml", "opts": ["--cfg=tracing/actor:yes"],
+     "scenario": "PLATFORM " + PLAT + "small_platform.xml\nACTOR a 0 0\nsleep 2\nEND\nACTOR b 1 0\nsleep 1\nrmigrate a 3\nEND\n"},
+    {"kind": "paje_drv", "label": "resume-not-suspended", "platform": "small_platform.xml", "opts": ["--cfg=tracing/actor:yes"],
+     "scenario": "PLATFORM " + PLAT + "small_platform.xml\nACTOR a 0 0\nexec 5e8 -\nEND\nACTOR b 1 0\nsleep 0.5\nfresume a\nEND\n"},
+]
+
+
 def gen_cases(ctx):
     rng = ctx.rng
     nk, npj, nm = (14, 36, 14) if ctx.quick else (150, 500, 120)
     cases = []
+    cases += [dict(c) for c in REGRESSION]
     for _ in range(nk):
         cases.append({"kind": "kdrv", "prog": K.gen_sync_prog(rng, rng.choice(["all", "mutex", "sem", "cv", "bar"])),
                       "opts": s4u_options(rng)})
@@ -264,11 +306,12 @@ def validate(ctx, units, tag):
     return out
 
 
-def signature(ev, reason, reason2, lastk, tnames):
+def signature(ev, reason, reason2, lastk, tnames, case=None):
     lastk, _, reinc = lastk.partition("|")
     if reason == "time-decreases":
         return "C47:time-decreases:%s:after:%s" % (ev["e"], lastk)
-    return "C47:%s:%s:%s%s" % (reason, ev["e"], tnames.get(ev["type"], ev["type"]), ":" + reinc if reinc else "")
+    return "C47:%s:%s:%s%s%s" % (reason, ev["e"], tnames.get(ev["type"], ev["type"]), ":" + reinc if reinc else "",
+                                 ":regression=" + case["label"] if case and case.get("label") else "")
 
 
 def run_mc(ctx):
@@ -334,7 +377,7 @@ def run(ctx):
         tn = type_names(conv[i])
         for off, reason, reason2, lastk in lst:
             ev = conv[i][off - 1]          # offset 0 is the Reset line
-            groups.setdefault(signature(ev, reason, reason2, lastk, tn), []).append((i, off, reason2))
+            groups.setdefault(signature(ev, reason, reason2, lastk, tn, cases[i]), []).append((i, off, reason2))
     ctx.cov["signatures"] = {k: len(v) for k, v in groups.items()}
     for sig, occ in sorted(groups.items()):
         i, off, reason2 = occ[0]
@@ -344,7 +387,7 @@ def run(ctx):
             ev2, _ = paje_conv.convert(f2)
             r2 = validate(ctx, [paje_conv.to_unit(ev2)], "re%d" % i)
             tn2 = type_names(ev2)
-            again = any(signature(ev2[o - 1], a, b, c, tn2) == sig for o, a, b, c in r2.get(0, []))
+            again = any(signature(ev2[o - 1], a, b, c, tn2, cases[i]) == sig for o, a, b, c in r2.get(0, []))
         if not again:
             ctx.cov["unconfirmed_rejections"] = ctx.cov.get("unconfirmed_rejections", 0) + 1
             continue
